@@ -51,20 +51,25 @@ def unrollArgRequires (c : Cmd) (relevant : Pred × Id → Option Id) : Nat → 
         ((if push then r :: acc.1 else acc.1), acc.2 ++ [r])) (rvec, args)
       unrollArgRequires c relevant fuel rvec' processed args'
 
-/-- `gather_arg_direct_conflicts` / `gather_group_direct_conflicts` (`none` = `expect` on a missing group) -/
+/-- one group of `gather_arg_direct_conflicts`: the group's conflicts, and its other members if it is not `multiple`
+(`none` = the `expect` on a missing group) -/
+def groupConflictStep (c : Cmd) (aid : Id) (acc : Option (List Id)) (gid : Id) : Option (List Id) :=
+  match acc, c.findGroup gid with
+  | some l, some g => some (l ++ g.conflicts ++ (if !g.multiple then g.args.filter (· != aid) else []))
+  | _, _ => none
+
+/-- `gather_arg_direct_conflicts`: blacklist, group-derived conflicts, overrides -/
+def argDirectConflicts (c : Cmd) (a : Arg) : Option (List Id) :=
+  ((c.groupsForArg a.id).foldl (groupConflictStep c a.id) (some a.blacklist)).map (· ++ a.overrides)
+
+/-- `gather_direct_conflicts` -/
 def gatherDirectConflicts (c : Cmd) (id : Id) : Option (List Id) :=
   match c.find id with
-  | some a =>
-    let fromGroups := (c.groupsForArg a.id).foldl (fun (acc : Option (List Id)) gid =>
-      match acc, c.findGroup gid with
-      | some l, some g =>
-        some (l ++ g.conflicts ++ (if !g.multiple then g.args.filter (· != a.id) else []))
-      | _, _ => none) (some a.blacklist)
-    fromGroups.map (· ++ a.overrides)
+  | some a => argDirectConflicts c a
   | none =>
     match c.findGroup id with
     | some g => some g.conflicts
-    | none => some []       -- `debug_assert!(false)` in the source; reported as a panic by `validate`
+    | none => some []       -- `debug_assert!(false)` in the source
 
 /-- `Conflicts::with_args`: explicitly present ids with their direct conflicts -/
 def potential (c : Cmd) (m : ArgMap) : Option (List (Id × List Id)) :=
@@ -134,38 +139,45 @@ def failsArgRequiredUnless (a : Arg) (m : ArgMap) : Bool :=
   let exists_ := fun id => m.checkExplicit id .isPresent
   (a.rUnlessAll.isEmpty || !a.rUnlessAll.all exists_) && !a.rUnless.any exists_
 
+/-- the loop over the required graph in `validate_required`: `true` = something required is missing -/
+def requiredLoop (c : Cmd) (m : ArgMap) (pot : List (Id × List Id)) (isExclusivePresent : Bool) : List Id → Except EK Bool
+  | [] => .ok false
+  | r :: rs =>
+    if m.checkExplicit r .isPresent then requiredLoop c m pot isExclusivePresent rs else
+    match c.find r with
+    | some a =>
+      match isMissingRequiredOk c pot a with
+      | none => .error (.panic "is_missing_required_ok: expect group")
+      | some ok => if !isExclusivePresent && !ok then .ok true else requiredLoop c m pot isExclusivePresent rs
+    | none =>
+      match c.findGroup r with
+      | some g =>
+        match argsInGroup c g.id with
+        | none => .error (.panic "unroll_args_in_group: expect")
+        | some members => if !(members.any fun a => m.checkExplicit a .isPresent) then .ok true
+                          else requiredLoop c m pot isExclusivePresent rs
+      | none => requiredLoop c m pot isExclusivePresent rs
+
+/-- the arg is conditionally required (`required_if_eq*`, `required_unless_present*`) and missing -/
+def conditionallyMissing (m : ArgMap) (a : Arg) : Bool :=
+  !m.checkExplicit a.id .isPresent &&
+  ((a.rIfs.any fun (o, v) => m.checkExplicit o (.equals v)) ||
+   ((a.rIfsAll.all fun (o, v) => m.checkExplicit o (.equals v)) && !a.rIfsAll.isEmpty) ||
+   ((!a.rUnless.isEmpty || !a.rUnlessAll.isEmpty) && failsArgRequiredUnless a m))
+
+/-- the ids `validate_required` iterates over: the static graph plus what `gather_requires` adds -/
+def requiredIds (c : Cmd) (m : ArgMap) : List Id :=
+  (gatherRequires c m).foldl (fun acc i => if acc.contains i then acc else acc ++ [i]) (requiredGraph c)
+
+def isExclusivePresent (c : Cmd) (m : ArgMap) : Bool :=
+  (explicitIds m).any fun id => ((c.find id).map (·.exclusive)).getD false
+
 /-- `validate_required` -/
 def validateRequired (c : Cmd) (m : ArgMap) (pot : List (Id × List Id)) : Except EK Unit :=
-  let required := (requiredGraph c)
-  let required := (gatherRequires c m).foldl (fun acc i => if acc.contains i then acc else acc ++ [i]) required
-  let isExclusivePresent := (explicitIds m).any fun id => ((c.find id).map (·.exclusive)).getD false
-  -- statically / transitively required
-  let rec go1 : List Id → Except EK Bool
-    | [] => .ok false
-    | r :: rs =>
-      if m.checkExplicit r .isPresent then go1 rs else
-      match c.find r with
-      | some a =>
-        match isMissingRequiredOk c pot a with
-        | none => .error (.panic "is_missing_required_ok: expect group")
-        | some ok => if !isExclusivePresent && !ok then .ok true else go1 rs
-      | none =>
-        match c.findGroup r with
-        | some g =>
-          match argsInGroup c g.id with
-          | none => .error (.panic "unroll_args_in_group: expect")
-          | some members => if !(members.any fun a => m.checkExplicit a .isPresent) then .ok true else go1 rs
-        | none => go1 rs
-  match go1 required with
+  match requiredLoop c m pot (isExclusivePresent c m) (requiredIds c m) with
   | .error e => .error e
   | .ok missing1 =>
-    -- conditionally required
-    let missing2 := c.args.any fun a =>
-      !m.checkExplicit a.id .isPresent &&
-      ((a.rIfs.any fun (o, v) => m.checkExplicit o (.equals v)) ||
-       ((a.rIfsAll.all fun (o, v) => m.checkExplicit o (.equals v)) && !a.rIfsAll.isEmpty) ||
-       ((!a.rUnless.isEmpty || !a.rUnlessAll.isEmpty) && failsArgRequiredUnless a m)) &&
-      !isExclusivePresent
+    let missing2 := (c.args.any fun a => conditionallyMissing m a) && !isExclusivePresent c m
     if missing1 || missing2 then .error .missingRequiredArgument else .ok ()
 
 /-- `Validator::validate` -/
